@@ -84,6 +84,8 @@ struct Judge<'a> {
     worst_alloc: u64,
     worst_read: u64,
     failed: bool,
+    /// constant part of the allocation budget of one iterator call (set per point cloud)
+    step_cons: u64,
 }
 
 impl Judge<'_> {
@@ -128,7 +130,8 @@ impl Judge<'_> {
                     //    2^19 one-bit values held twice (~160 MiB), independent of L
                     //  - blob extraction streams through a small buffer
                     let (fac, cons): (u64, u64) = if name.contains("next()") || name.starts_with("pointcloud_") {
-                        (64, 192 << 20)
+                        // `step_cons` is derived from the prototype of the cloud being read
+                        (64, self.step_cons)
                     } else if name == "blob" {
                         (1, 1 << 20)
                     } else {
@@ -164,7 +167,7 @@ impl Judge<'_> {
 /// Every read entry point on one input.
 fn run_all(ctx: &Ctx, mode: Mode, bytes: &[u8], what: String, n_opts: usize) {
     let l = bytes.len() as u64;
-    let mut j = Judge { ctx, mode, l, what, worst_alloc: 0, worst_read: 0, failed: false };
+    let mut j = Judge { ctx, mode, l, what, worst_alloc: 0, worst_read: 0, failed: false, step_cons: 192 << 20 };
     let dev = Dev::new(bytes.to_vec());
     let _ = j.call("validate_crc", &dev, 2, || E57Reader::validate_crc(dev.handle()).is_ok());
     let _ = j.call("raw_xml", &dev, 4, || E57Reader::raw_xml(dev.handle()).map(|x| x.len()).ok());
@@ -179,9 +182,25 @@ fn run_all(ctx: &Ctx, mode: Mode, bytes: &[u8], what: String, n_opts: usize) {
     let _ = j.call("metadata", &dev, 4, || (r.guid().len(), r.xml().len(), r.extensions().len(), r.creation().is_some(), r.coordinate_metadata().map(|c| c.len())));
     let step_cap = 8 * l + 1024;
     for (ci, pc) in pcs.iter().enumerate() {
+        // One call may decode one data packet of at most 64 KiB. The values of a packet are held
+        // about twice (queues, then points): 2^19 bits / (bits per point) points of proto_len
+        // values of ~24 bytes each, four times for slack, plus 4 MiB. For 64-bit records that is
+        // ~5 MiB, for a single one-bit record the old flat 192 MiB.
+        let bits: u64 = pc.prototype.iter().map(|r| { let t = crate::conv::ty_from_e57(&r.data_type); if matches!(t, e57spec::model::Ty::Int { min, max } | e57spec::model::Ty::Scaled { min, max, .. } if max < min) { 64 } else { t.bits() as u64 } }).sum::<u64>().max(1);
+        j.step_cons = ((1u64 << 19) / bits + 1) * pc.prototype.len().max(1) as u64 * 24 * 2 * 4 + (4 << 20);
         // raw iterator
         let it = j.call("pointcloud_raw", &dev, 4, || r.pointcloud_raw(pc).ok());
         if let Some(Some(mut it)) = it {
+            // the lower bound of size_hint is a promise: `collect()` allocates that many items up
+            // front. More points than the file has bits cannot be promised (unless a point has no bits).
+            let (hint_lo, _) = it.size_hint();
+            let point_bits: u64 = pc.prototype.iter().map(|r| crate::conv::ty_from_e57(&r.data_type).bits() as u64).sum();
+            if mode == Mode::NoPanic && point_bits > 0 && hint_lo as u64 > 8 * l + 1024 {
+                ctx.violation(
+                    "C08/size-hint/untrusted-lower-bound".to_string(),
+                    format!("pointcloud_raw(cloud {ci}).size_hint() promises at least {hint_lo} items for a file of {l} bytes (the recordCount of the XML is passed on unchecked): Iterator::collect() allocates that capacity and panics with 'capacity overflow' or exhausts the memory; input: {}", j.what),
+                );
+            }
             let mut n = 0u64;
             loop {
                 let item = j.call("raw next()", &dev, 4, || it.next().map(|x| x.is_ok()));
